@@ -6,8 +6,9 @@ unset GOSUMDB
 mkdir -p bin evidence replays
 tools/sync-gomod.sh
 rc=0
-for d in mc/c[0-9][0-9]; do
-  id=$(basename $d)
+# only the checks registered in MANIFEST.json are built (work-in-progress harness directories are ignored)
+for id in $(sed -n 's/.*"quick_cmd": "\.\/check \(C[0-9]*\) .*/\1/p' MANIFEST.json | tr 'A-Z' 'a-z'); do
+  d=mc/$id
   if [ -f "$d/OVERLAY" ]; then
     OV=$(tools/instrument.sh "$id") || { echo "instrument $id failed"; rc=1; continue; }
     (cd mc && go build -overlay "$OV" -o ../bin/$id ./$id) || rc=1
